@@ -101,6 +101,8 @@ def run(cx, tier='quick'):
                 rep.ok('TPL-PARSE', '%s|scalar|%s|%s' % (t.fn.qname, S_sha(t.text()), c))
     from .helpers import check_ident_or_index
     check_ident_or_index(cx, rep)
+    from .scope import check_scopes
+    check_scopes(cx, rep, None)
     rep.floor('TPL-PARSE', 200, '(276 templates today)')
     rep.floor('TPL-OPT', 5, '(9 optional-hole positions today)')
     rep.floor('TPL-ARITY', 40)
